@@ -133,7 +133,10 @@ namespace sim
 
   struct op_guard
   {
-    op_guard (const fault_plan& f, std::uint32_t m1, std::uint32_t m2) { begin_op (f, m1, m2); }
+    op_guard (const fault_plan& f, std::uint32_t m1, std::uint32_t m2, bool noexcept_declared = false)
+    {
+      begin_op (f, m1, m2, noexcept_declared);
+    }
     ~op_guard (void) { end_op (); }
   };
 
